@@ -449,6 +449,64 @@ FuseResult(os, n) ==
         keepIdx == SelectSeq([i \in 1..Len(os) |-> i], LAMBDA i : i \notin valid)
     IN [i \in 1..Len(keepIdx) |-> IF keepIdx[i] \in muls THEN repl(keepIdx[i]) ELSE os[keepIdx[i]]]
 
+\* C18: MulAddFusion::apply iterates a hash set (`for &add_idx in valid`), the first add to claim
+\* a mul wins.  FuseOrdered replays that loop for one iteration order; FuseOrderIndependent says the
+\* emitted op list does not depend on the order the runtime happens to choose.
+FuseParts(os, n) ==
+    LET Slots == 0 .. n
+        sc == ScanDefs(os, 1, [s \in Slots |-> NoDef], [s \in Slots |-> None])
+        defs == sc.defs
+        bw == sc.bw
+        defIdx(s) == defs[s].idx
+        isConst(s) == defs[s].kind = "Const"
+        isBack(i, s) == (FixFuse /\ s \in Range(privrows)) \/ (defIdx(s) # None /\ defIdx(s) < i)
+        TryFuse(m, addend, out, ai) ==
+            IF defs[m].kind # "Mul" THEN NoCand
+            ELSE LET mi == defs[m].idx  ma == defs[m].a  mb == defs[m].b IN
+                 IF UseCount(os, m) # 1 \/ isConst(m) THEN NoCand
+                 ELSE IF defIdx(addend) # None /\ defIdx(addend) >= ai THEN NoCand
+                 ELSE IF bw[addend] # None /\ bw[addend] >= mi THEN NoCand
+                 ELSE IF defIdx(mb) # None /\ defIdx(mb) >= mi THEN NoCand
+                 ELSE IF FixFuse /\ (WrittenElsewhere(os, m, mi) \/ mi >= ai \/ m \in Range(privrows)) THEN NoCand
+                 ELSE [mi |-> mi, addend |-> addend, op |-> OAlu("MulAdd", ma, mb, addend, out, m)]
+        Cand(ai) ==
+            LET op == os[ai] IN
+            IF op.k # "Add" \/ isConst(op.out) \/ isBack(ai, op.out) THEN NoCand
+            ELSE LET c1 == TryFuse(op.a, op.b, op.out, ai) IN
+                 IF c1.mi # 0 THEN c1 ELSE TryFuse(op.b, op.a, op.out, ai)
+        cands == { ai \in 1..Len(os) : Cand(ai).mi # 0 }
+        RECURSIVE Filter(_)
+        Filter(valid) ==
+            LET fusedPos(s) ==
+                    IF \E ai \in valid : os[ai].out = s
+                    THEN Cand(CHOOSE ai \in valid : os[ai].out = s).mi
+                    ELSE defIdx(s)
+                nv == { ai \in valid : LET p == fusedPos(Cand(ai).addend) IN p = None \/ p < Cand(ai).mi }
+            IN IF nv = valid THEN valid ELSE Filter(nv)
+        valid == Filter(cands)
+    IN [valid |-> valid, cand |-> [ai \in valid |-> Cand(ai)]]
+
+FuseOrdered(os, parts, order) ==      \* order: a sequence enumerating parts.valid
+    LET RECURSIVE Loop(_, _, _)
+        Loop(i, repl, consumed) ==     \* repl: set of <<mul_idx, op>>
+            IF i > Len(order) THEN [repl |-> repl, consumed |-> consumed]
+            ELSE LET ai == order[i]  c == parts.cand[ai] IN
+                 IF \E r \in repl : r[1] = c.mi THEN Loop(i + 1, repl, consumed)
+                 ELSE Loop(i + 1, repl \cup {<<c.mi, c.op>>}, consumed \cup {ai})
+        res == Loop(1, {}, {})
+        keepIdx == SelectSeq([i \in 1..Len(os) |-> i], LAMBDA i : i \notin res.consumed)
+    IN [i \in 1..Len(keepIdx) |->
+          IF \E r \in res.repl : r[1] = keepIdx[i]
+          THEN (CHOOSE r \in res.repl : r[1] = keepIdx[i])[2] ELSE os[keepIdx[i]]]
+
+SeqsOf(S) == { f \in [1..Cardinality(S) -> S] : \A i, j \in 1..Cardinality(S) : i # j => f[i] # f[j] }
+
+FuseOrderIndependent ==
+    stage = "deduped" =>
+        LET parts == FuseParts(ops, nslots)
+            ref == FuseResult(ops, nslots) IN
+        \A order \in SeqsOf(parts.valid) : FuseOrdered(ops, parts, order) = ref
+
 Fuse ==
     /\ stage = "deduped"
     /\ ops' = FuseResult(ops, nslots)
@@ -551,6 +609,17 @@ Run(os, prow, vrow, n, rw, env) ==
     LET w0 == [s \in 0..(n - 1) |-> None]
         w1 == SetAll(w0, prow, env.pub)
         w2_ == SetAll(w1, vrow, env.priv)
+        w3 == ExecAll(w2_, os, 1)
+        w4 == FillRw(w3, rw, rw)
+    IN IF IsBad(w4) THEN Fail
+       ELSE IF \E s \in DOMAIN w4 : w4[s] = None THEN Fail
+       ELSE [ok |-> TRUE, w |-> w4]
+
+\* the same run with the public or the private inputs never supplied (C19)
+RunPartial(os, prow, vrow, n, rw, env, withPub, withPriv) ==
+    LET w0 == [s \in 0..(n - 1) |-> None]
+        w1 == IF withPub THEN SetAll(w0, prow, env.pub) ELSE w0
+        w2_ == IF withPriv THEN SetAll(w1, vrow, env.priv) ELSE w1
         w3 == ExecAll(w2_, os, 1)
         w4 == FillRw(w3, rw, rw)
     IN IF IsBad(w4) THEN Fail
@@ -703,6 +772,12 @@ RunImpliesOpsAt(env) ==
 
 DenotationPreserved == stage = "done" => \A env \in Envs :
     ValuesPreservedAt(env) /\ ViolationDetectedAt(env)
+
+\* C19: no success from inputs that were never supplied
+NoSuccessFromUnset ==
+    stage = "done" => \A env \in Envs :
+        /\ NPUB > 0 => ~RunPartial(ops, pubrows, privrows, nslots, rewrite, env, FALSE, TRUE).ok
+        /\ NPRIV > 0 => ~RunPartial(ops, pubrows, privrows, nslots, rewrite, env, TRUE, FALSE).ok
 
 \* Folding / CSE soundness of the builder: every returned id denotes the requested function
 CallSound(c, d) ==
